@@ -518,6 +518,16 @@ theorem pool_code_matches_source :
       ["return &DissectInstance{ s, slicepool.NewIntPool((s.groupCount*2 + 2) * 1024), }"] := by
   decide
 
+/-- `MustCompile` panics exactly on the texts outside the grammar (and `Compile` is the
+case-sensitive `CompileEx`). -/
+theorem must_compile_panics_iff_not_pattern (s : Bytes) :
+    (∃ m, mustCompile s = .error m) ↔ ¬ PatternText s := by
+  rw [← compile_iff_pattern_grammar s false]
+  unfold mustCompile compile
+  cases compileEx s false with
+  | ok d => simp
+  | error e => simp
+
 /-- **Tie to the source**: `lowerByte` of case.go, translated from the Go AST (`'A' <= c && c <=
 'Z'`, `c + ('a' - 'A')`), is the fold of the specification on every byte. -/
 theorem gen_lowerByte_eq (c : UInt8) : Gen.C12.lowerByte c = lowerByte c := by
